@@ -16,7 +16,7 @@ LEVEL = "exploration"
 RULE = (
     "Enumerated: input length n in 0..N (N=6 quick, 8 thorough), start/stop in {None} u [-(n+2), n+2], "
     "step in {None} u 1..n+1, both source[a:b:c] and ops.slice(a,b,c), source ending in completion or in an "
-    "error after k elements; integer form source[i] for i in [-(n+2), n+2]; plus generated large magnitudes; plus generated element VALUES (None, falsy, repeated, unhashable) under small slices, since slicing is positional. "
+    "error after k elements; integer form source[i] for i in [-(n+2), n+2]; plus generated large magnitudes; plus a re-entrant Subject source whose next element is pushed by the slice's consumer from inside on_next (call-entry order is still 0,1,2,...); plus generated element VALUES (None, falsy, repeated, unhashable) under small slices, since slicing is positional. "
     "Oracle: list(range(n))[a:b:c] then completion; on error the emitted elements must be a prefix-consistent "
     "subsequence of the expected list followed by that error; the same sliced observable subscribed a second time must give the same result. Non-trivial: 0 < len(expected) < n or "
     "sign(start) != sign(stop). Distinct = distinct case JSON."
@@ -142,6 +142,65 @@ _gen = st.fixed_dictionaries(
 )
 
 
+def _run_reentrant(case):
+    """The consumer of the slice makes the (Subject) source emit its next element from inside on_next: the sequence the
+    slice sees is still 0,1,2,... in call-entry order, so the output must still be the list slice, in list order."""
+    from reactivex.subject import Subject
+
+    n, a, b, c, form = case["n"], case["a"], case["b"], case["c"], case["form"]
+    fb = set(case["fb"])
+    s = Subject()
+    out = s[a:b:c] if form == "getitem" else s.pipe(ops.slice(a, b, c))
+    state = {"next": 0, "nested": 0, "depth": 0}
+    got, term = [], []
+
+    def push():
+        if state["next"] < n and not s.is_stopped:
+            v = state["next"]
+            state["next"] += 1
+            s.on_next(v)
+
+    def on_next(v):
+        k = len(got)
+        got.append(v)
+        if k in fb and state["next"] < n and not s.is_stopped:
+            state["nested"] += 1
+            push()
+
+    out.subscribe(on_next, lambda e: term.append(["E", repr(e)]), lambda: term.append(["C"]))
+    while state["next"] < n and not s.is_stopped:
+        push()
+    s.on_completed()
+    expected = list(range(n))[a:b:c]
+    cls = ["reentrant-source"]
+    if state["nested"]:
+        cls.append("element-pushed-during-delivery")
+    if c is not None and c > 1:
+        cls.append("step>1")
+    if term != [["C"]]:
+        return FAIL("reentrant:terminal", f"case={case} terminal={term} got={got}", classes=cls)
+    if got != expected:
+        return FAIL("reentrant:values", f"case={case} expected={expected} got={got}", classes=cls)
+    return OK(bool(state["nested"]) and 0 < len(expected) < n, cls)
+
+
+def _reentrant_cases():
+    @st.composite
+    def build(draw):
+        n = draw(st.integers(2, 10))
+        idx = st.integers(-(n + 1), n + 1)
+        return {
+            "n": n,
+            "a": draw(st.one_of(st.none(), idx)),
+            "b": draw(st.one_of(st.none(), idx)),
+            "c": draw(st.one_of(st.none(), st.integers(1, 4))),
+            "form": draw(st.sampled_from(["getitem", "op"])),
+            "fb": sorted(draw(st.sets(st.integers(0, n - 1), min_size=1, max_size=4))),
+        }
+
+    return build()
+
+
 def _vals_cases():
     """Slicing is positional: the element VALUES must not matter (None, falsy, equal neighbours, unhashable)."""
 
@@ -169,6 +228,7 @@ def _vals_cases():
 
 def checks(tier):
     return [
+        Check("reentrant", _run_reentrant, strategy=_reentrant_cases(), examples={"quick": 2500, "thorough": 16 * 15000}, shards={"quick": 4, "thorough": 16}),
         Check("values", _run, strategy=_vals_cases(), examples={"quick": 3000, "thorough": 16 * 20000}, shards={"quick": 4, "thorough": 16}),
         Check("enum", _run, cases=_enum, shards={"quick": 8, "thorough": 16}, exhaustive=True),
         Check("large", _run, strategy=_gen, examples={"quick": 400, "thorough": 16 * 4000}, shards={"quick": 1, "thorough": 16}),
